@@ -375,6 +375,26 @@ func c0203Run(which string) func(c *Ctx) {
 		if c.Quick() {
 			nq = 3
 		}
+		// hand-built family: a definition whose *name* spells the pointer of another node
+		// ("a/b" vs member b of definition a), references in both directions, acyclic
+		if c.Shard == 0 {
+			for i, defs := range []string{
+				`{"a/b":{"title":"T0","properties":{"p":{"$ref":"#/definitions/a/b"}}},"a":{"title":"holder","b":{"title":"T1"}}}`,
+				`{"a/b":{"title":"T0"},"a":{"title":"holder","b":{"title":"T1","properties":{"q":{"$ref":"#/definitions/a~1b"}}}},"c":{"allOf":[{"$ref":"#/definitions/a/b"},{"$ref":"#/definitions/a~1b"}]}}`,
+				`{"x/y/z":{"title":"T0","items":{"$ref":"#/definitions/x/y/z"}},"x":{"y":{"z":{"title":"T1"}}},"x/y":{"z":{"title":"T2","not":{"$ref":"#/definitions/x~1y~1z"}}}}`,
+			} {
+				for _, abs := range []bool{false, true} {
+					doc := `{"swagger":"2.0","info":{"title":"t","version":"1"},"paths":{},"definitions":` + defs + `}`
+					cs := &expCase{built: built{Docs: map[string]json.RawMessage{docURLs[0]: json.RawMessage(doc)}, Root: docURLs[0],
+						Feat: map[string]string{"entry": "pointer-collision", "chainlen": "0", "crossdoc": "false", "family": strconv.Itoa(i)}}, Opts: expOpts{Abs: abs}, MapBound: 2}
+					c.Res.States++
+					o, _ := expandCheck2(c, cs, which)
+					c.Res.Evaluations++
+					c.Res.Nontrivial++
+					c.Outcome(o)
+				}
+			}
+		}
 		graphSweep(c, nq, !c.Quick(), func(g *gspec) {
 			for _, abs := range []bool{false, true} {
 				if c.Expired() {
